@@ -256,9 +256,12 @@ export class RangeListManager {
         const item = items[i]!
         const index = indexes === null ? i : indexes[i]!
         const oldIndex = oldIndexes === null ? i : oldIndexes[i]!
+        // (when the position now belongs to another field of an object list, the node shows another item)
         const u =
           updatePathTree === true || updatePathTree === undefined
             ? updatePathTree
+            : index !== oldIndex
+            ? true
             : (updatePathTree as { [key: string]: UpdatePathTreeNode })[index]
         updateListItem(
           item,
